@@ -206,13 +206,13 @@ def verus_replay(prop, v, scratch):
     v["reproduced"] = True if found else None
 
 
-def probe_standin(prop, unit_name, scratch, reason, always=False):
+def probe_standin(prop, unit_name, scratch, reason, always=False, by_file=False):
     """Bounded stand-in (never counted as proved): when a Verus unit cannot decide (changed structure,
     unsupported construct) the unit's replay probe evaluates the same postconditions on its grid of concrete
     inputs against the real code.  A failing input is a genuine violation with a real replay."""
     from . import probes
-    fn = probes.probe_for_unit(unit_name)
-    if fn is None:
+    fn = (unit_name + ".rs") if by_file else probes.probe_for_unit(unit_name)
+    if fn is None or not os.path.exists(os.path.join(probes.PROBE_DIR, fn)):
         return None, None
     found, pout = probes.run_probe(prop, "", scratch, only_file=fn)
     ob = {"engine": "probe-bounded", "unit": unit_name, "name": "probe:%s" % fn[:-3], "fn": unit_name, "kind": "bounded",
@@ -250,6 +250,20 @@ def check(prop, tier, seed, only=None):
         from . import verus
         o, v, u, i = verus.verus_part(prop, tier, seed, only, prop)
         obligations += o; violations += v; undecided += u; infos["verus"] = i
+        # bounded stand-ins registered per property (always labelled bounded, never counted as proved)
+        want = list(P.get("probes_quick", [])) + (list(P.get("probes_thorough", [])) if tier == "thorough" else [])
+        have = set(o["name"] for o in obligations)
+        want = [w for w in want if "probe:" + w not in have and not only]
+        if want:
+            with common.Scratch(prop + "-probe") as sc:
+                for w in want:
+                    ob, viol = probe_standin(prop, w, sc, "registered bounded stand-in", by_file=True)
+                    if ob:
+                        obligations.append(ob)
+                        if ob["status"] == "undecided":
+                            undecided.append("probe %s did not run" % w)
+                    if viol:
+                        violations.append(viol)
     except Undecided as ex:
         fatal = str(ex)
         undecided.append(fatal)
